@@ -358,6 +358,8 @@ class NF:
                     return mk_list(list(base[1][lo[1]:]))
                 return ("slice", base, lo, hi)
             idx = self.ev(e.slice, env)
+            if base[0] == "op" and base[1] == "repeat" and base[2][0][0] == "list" and len(base[2][0][1]) == 1 and base[2][0][1][0][0] != "splat":
+                return base[2][0][1][0]
             if base[0] == "list" and idx[0] == "const" and isinstance(idx[1], int) and 0 <= idx[1] < len(base[1]) \
                     and not any(x[0] == "splat" for x in base[1][: idx[1] + 1]):
                 return base[1][idx[1]]
@@ -920,6 +922,84 @@ class NF:
             for a in s.names:
                 if a.asname:
                     m.imports.setdefault(a.asname, a.name)
+
+    # ------------------------------------------------------------------ constructor expansion
+    def init_fields(self, cls: Class, args: dict, env: Env | None = None, depth: int = 0) -> dict:
+        """fields of the object built by cls(**args): interprets a straight-line explicit __init__
+        (self.f = e, locals, super().__init__(...)) or the dataclass-generated one"""
+        if depth > 6:
+            raise Opaque("init depth")
+        c, init = cls.find_method("__init__")
+        if init is None:
+            out = {}
+            for f in cls.all_fields():
+                if not f.init:
+                    continue
+                if f.name in args:
+                    out[f.name] = args[f.name]
+                else:
+                    d = self.field_default(f, env or Env(cls.module, cls))
+                    out[f.name] = d if d is not None else ("default", cls.qualname, f.name)
+            return out
+        me = ("sym", "<new>")
+        e2 = Env(c.module, c, {**args, init.args.args[0].arg: me}, dict(env.types) if env else {}, (env.depth + 1) if env else 0, env.vdepth if env else 0)
+        fields: dict = {}
+        for st in normalise_loops(real_body(init)):
+            if isinstance(st, ast.Assign) and len(st.targets) == 1:
+                tg = st.targets[0]
+                v = self.ev(st.value, e2)
+                if isinstance(tg, ast.Attribute) and isinstance(tg.value, ast.Name) and tg.value.id == init.args.args[0].arg:
+                    fields[tg.attr] = v
+                else:
+                    self._assign(tg, v, e2)
+            elif isinstance(st, ast.Expr) and isinstance(st.value, ast.Call) and isinstance(st.value.func, ast.Attribute) \
+                    and st.value.func.attr == "__init__" and isinstance(st.value.func.value, ast.Call) and u(st.value.func.value.func) == "super":
+                idx = cls.mro.index(c)
+                base = None
+                for k in cls.mro[idx + 1:]:
+                    if "__init__" in k.methods or k.is_dataclass:
+                        base = k
+                        break
+                if base is None:
+                    raise Opaque("super().__init__ target")
+                bc, binit = base.find_method("__init__")
+                if binit is not None and bc in cls.mro[idx + 1:]:
+                    bargs = self._bind(binit, st.value, e2, skip_self=True)
+                else:
+                    bargs = {}
+                    pos = base.init_positional()
+                    for i, a in enumerate(st.value.args):
+                        bargs[pos[i]] = self.ev(a, e2)
+                    for k in st.value.keywords:
+                        bargs[k.arg] = self.ev(k.value, e2)
+                fields.update(self.init_fields(base, bargs, e2, depth + 1))
+            elif isinstance(st, (ast.Pass, ast.Assert)) or (isinstance(st, ast.Expr) and isinstance(st.value, ast.Constant)):
+                continue
+            else:
+                raise Opaque(f"{cls.name}.__init__: statement {type(st).__name__}")
+        return fields
+
+    def expand(self, t, env: Env | None = None):
+        """replace constructor terms of classes with an explicit __init__ by their general (dataclass) base form"""
+        if not isinstance(t, tuple) or not t:
+            return t
+        if t[0] == "ctor":
+            cls = self.prog.cls(t[1])
+            args = {p: self.expand(v, env) for p, v in t[2]}
+            c, init = cls.find_method("__init__")
+            if init is not None:
+                try:
+                    fields = self.init_fields(cls, args, env)
+                except Opaque:
+                    return mk_ctor(t[1], args)
+                fields = {k: self.expand(v, env) for k, v in fields.items()}
+                base = next((k for k in cls.mro if k.is_dataclass and k.find_method("__init__")[1] is None), None)
+                if base is not None:
+                    keep = {f.name for f in base.all_fields()}
+                    return mk_ctor(base.qualname, {k: v for k, v in fields.items() if k in keep})
+                return mk_ctor(t[1] + "#fields", fields)
+            return mk_ctor(t[1], args)
+        return tuple(self.expand(x, env) if isinstance(x, tuple) else x for x in t)
 
     # ------------------------------------------------------------------ branching bodies
     def paths(self, cls: Class, name: str, self_t=None, args: dict | None = None, bound: int = 64):
